@@ -358,12 +358,12 @@ def messageFormat (lines : List Str) (v : Version) : Except Err (List Str) :=
   | .ok n =>
     .ok ((match lines with
           | [] => []
-          | l :: rest => ("MESSAGE: ".toList ++ sliceTo l ((n : Int) - 10)) :: rest.map (fun x => sliceTo x ((n : Int) - 1))) ++ [[]])
+          | l :: rest => ("MESSAGE: ".toList ++ sliceTo l ((n : Int) - 9)) :: rest.map (fun x => sliceTo x (n : Int))) ++ [[]])
 
 /-- mcnp_input.py:Title.format_for_mcnp_input -/
 def titleFormat (title : Str) (v : Version) : Except Err (List Str) :=
   match getMaxLineLength v with
   | .error e => .error e
-  | .ok n => .ok [sliceTo title ((n : Int) - 1)]
+  | .ok n => .ok [sliceTo title (n : Int)]
 
 end MontePyVerif.Wrap
